@@ -503,12 +503,19 @@ def _sum_case(draw):
 # ---------------------------------------------------------------------------------------------
 
 
+def _scaled(n):
+    """VERIF_SCALE (default 1) shrinks the case count for sensitivity runs: a prefix of the same seeded search."""
+    import os
+
+    return max(50, int(n * float(os.environ.get("VERIF_SCALE", "1"))))
+
+
 def shards(tier):
     return [{"i": i} for i in range(16 if tier == "quick" else 96)]
 
 
 def run_shard(spec, ctx):
-    return core.hyp_shard(cases(), check_case, ctx, max_examples=ctx.pick(7000, 18000))
+    return core.hyp_shard(cases(), check_case, ctx, max_examples=_scaled(ctx.pick(7000, 18000)))
 
 
 def floors(total, tier):
